@@ -176,7 +176,15 @@ func main() {
 	case "race":
 		streamRace(thorough)
 	case "hist":
-		streamHist(len(filter) > 0 && filter[0] == "rev")
+		switch {
+		case len(filter) > 0 && filter[0] == "gen":
+			histObjects()
+		case len(os.Args) > 4:
+			streamHist(len(filter) > 0 && filter[0] == "rev", os.Args[4])
+		default:
+			fmt.Fprintln(os.Stderr, "hist: need hist:gen, or hist:fwd|hist:rev <object file>")
+			os.Exit(2)
+		}
 	case "replay":
 		// replay one op line (without the impl part) given as remaining args
 		replay(os.Args[4:])
@@ -228,5 +236,9 @@ func replay(a []string) {
 		verByName(a[1]).opMono([]byte(unhex(a[2])), unhex(a[3]), unhex(a[4]), unhex(a[5]))
 	case "K":
 		verByName(a[1]).opEff([]byte(unhex(a[2])), []byte(unhex(a[3])))
+	case "A", "C", "U":
+		// runtime scenarios and float primitives are not single replayable calls: re-run the stream they came from
+		fmt.Fprintln(os.Stderr, "replay: operation kind", a[0], "is replayed by re-running its stream (alloc / race / hist / float)")
+		os.Exit(4)
 	}
 }
